@@ -374,6 +374,9 @@ impl<W: Write + io::Seek> ZipWriter<W> {
             return Err(ZipError::InvalidArchive("File name is too long"));
         }
         self.finish_file()?;
+        // Until the new entry is listed, the last entry in `files` is a finished one: if writing the
+        // new header fails, a later call must not patch that finished entry's header again.
+        self.writing_raw = true;
 
         let raw_values = raw_values.unwrap_or(ZipRawValues {
             crc32: 0,
@@ -418,6 +421,7 @@ impl<W: Write + io::Seek> ZipWriter<W> {
             self.stats.hasher = Hasher::new();
 
             self.files.push(file);
+            self.writing_raw = false;
         }
         if let Some(keys) = options.encrypt_with {
             let mut zipwriter = crate::zipcrypto::ZipCryptoWriter { writer: core::mem::replace(&mut self.inner, GenericZipWriter::Closed).unwrap(), buffer: vec![], keys };
